@@ -421,6 +421,7 @@ class CooperativeTask:
         self._cooperator = cooperator
         self._deferreds: List[Deferred[Iterator[_TaskResultT]]] = []
         self._pauseCount = 0
+        self._waitingOnDeferred = False
         self._completionState: Optional[SchedulerError] = None
         self._completionResult: Optional[Union[Iterator[_TaskResultT], Failure]] = None
         cooperator._addTask(self)
@@ -465,7 +466,9 @@ class CooperativeTask:
 
         @raise NotPaused: if this L{CooperativeTask} is not paused.
         """
-        if self._pauseCount == 0:
+        if self._pauseCount == (1 if self._waitingOnDeferred else 0):
+            # The pause taken while waiting on a yielded Deferred is not the
+            # caller's to release.
             raise NotPaused()
         self._pauseCount -= 1
         if self._pauseCount == 0 and self._completionState is None:
@@ -531,11 +534,22 @@ class CooperativeTask:
         else:
             if isinstance(result, Deferred):
                 self.pause()
+                self._waitingOnDeferred = True
+
+                def resumeLater(result: object) -> None:
+                    self._waitingOnDeferred = False
+                    self.resume()
 
                 def failLater(failure: Failure) -> None:
-                    self._completeWith(TaskFailed(), failure)
+                    self._waitingOnDeferred = False
+                    if self._completionState is None:
+                        self._completeWith(TaskFailed(), failure)
+                    else:
+                        # Already stopped (or otherwise finished) while
+                        # waiting: the completion stands.
+                        self._pauseCount -= 1
 
-                result.addCallbacks(lambda result: self.resume(), failLater)
+                result.addCallbacks(resumeLater, failLater)
 
 
 class Cooperator:
